@@ -419,12 +419,16 @@ func NewDecoder(n int, sep string, r io.Reader) (sts.PayloadDecoder, error) {
 	}
 	pr, pw := io.Pipe()
 	go func() {
+		var err error
 		if n > 0 {
-			_, _ = io.CopyN(pw, r, int64(n))
+			_, err = io.CopyN(pw, r, int64(n))
 		} else {
 			// When no length provided, assume the meta is the entire payload
-			_, _ = io.Copy(pw, r)
+			_, err = io.Copy(pw, r)
 		}
+		// Tell the reading end that nothing more will come: a header that is
+		// longer than announced must end in an error, not in a wait
+		pw.CloseWithError(err)
 	}()
 	jr := json.NewDecoder(pr)
 	err = jr.Decode(&binReader.meta)
